@@ -387,6 +387,9 @@ static void _last_fix_and_reset_points(struct iwal *wal, uint8_t *wmm, off_t fsz
         break;
       }
       case WOP_SAVEPOINT: {
+        if (avail < sizeof(WBSAVEPOINT)) {
+          return;
+        }
         *fpos = (rp - wmm);
         rp += sizeof(WBSAVEPOINT);
         break;
